@@ -514,6 +514,11 @@ class Ctx:
                     self.violation("model and implementation disagree on case %s at observation %d:\n impl : %s\n model: %s" %
                                    (c.id, k, a[k] if k < len(a) else "<end>", m[k] if k < len(m) else "<end>"),
                                    c.render(), name="corr", found=False, key=getattr(c, "known_key", None))
+        try:
+            import speccheck
+            speccheck.cross_check(self, cases, io, tag + "spec")
+        except Exception as e:
+            self.violation("specification cross-check failed to run: %r" % (e,), None, found=False)
         if not corr["samples"] and cases:
             corr["samples"].append({"case": cases[0].render()[:1500], "impl_result": io.get(cases[0].id, ["?"])[-1]})
         return io, mo
